@@ -127,6 +127,13 @@ def make_run(W, shape, known_active=None):
                 types.append(class_check(mkpred(t[1])))
             elif t[0] == "hook":
                 types.append(Hook)
+            elif t[0] == "deppred":
+                # a value-dependent type whose BOUND is a user class predicate (default codegen path)
+                from ovld import Dependent
+
+                def cond(x):
+                    return bool(getattr(x, "flag", True))
+                types.append(Dependent[class_check(mkpred(t[1])), cond])
         extra = {f"FW{m}": inst(md["fw"]) for m, md in enumerate(methods) if md["kind"] == "rec"}
         hs, LOG, ns = ms.instantiate(W, extra=extra)
         ov = Ovld()
@@ -167,11 +174,11 @@ def make_run(W, shape, known_active=None):
 def gen_shapes(tier, seed):
     rng = random.Random(seed)
     n = 3
-    T = [("K", 0), ("K", 1), ("K", 2), ("obj",), ("pred", 0), ("pred", 1), ("hook",)]
+    T = [("K", 0), ("K", 1), ("K", 2), ("obj",), ("pred", 0), ("pred", 1), ("hook",), ("deppred", 0), ("deppred", 1)]
     kinds = ["ret", "next", "rec"]
     allshapes = []
     for mt in itertools.product(T, repeat=3):
-        if not any(t[0] in ("pred", "hook") for t in mt):
+        if not any(t[0] in ("pred", "hook", "deppred") for t in mt):
             continue
         for ks in itertools.product(kinds, repeat=3):
             md = [dict(t=list(t), kind=k) for t, k in zip(mt, ks)]
@@ -205,7 +212,7 @@ def main(tier, seed):
     return runner.finish(
         PID, tier, seed, t0, results,
         bounds=dict(classes=3, methods="3 (+1 registered after the first phase)", positions=1,
-                    annotations="harness classes, object, two class_check(predicate) types, one user type with __type_order__/__is_supertype__ hooks",
+                    annotations="harness classes, object, two class_check(predicate) types, Dependent[class_check(predicate), condition], one user type with __type_order__/__is_supertype__ hooks",
                     bodies="return | call_next(x) | recurse(other)", calls="warm-up of K0, K1, object(); then each again; register; both phases again",
                     hook_answers="predicates: one solver boolean per (predicate, class); hooks: supertype boolean per class, order chosen among "
                                  "LESS/MORE/NONE/NotImplemented per class",
